@@ -181,6 +181,19 @@ func subjects(thorough bool) []subject {
 	return out
 }
 
+// textStub implements encoding.TextMarshaler only.
+type textStub struct {
+	text string
+	err  error
+}
+
+func (t *textStub) MarshalText() ([]byte, error) {
+	if t.err != nil {
+		return nil, t.err
+	}
+	return []byte(t.text), nil
+}
+
 func guard(f func()) (p string) {
 	defer func() {
 		if r := recover(); r != nil {
@@ -390,6 +403,16 @@ func main() {
 	r.Set("equal_same_pointer_and_copy_pairs", selfPairs)
 	r.Set("subjects", len(subs))
 	r.Set("equal_pairs", len(reps)*len(reps))
+	// a value that renders itself (encoding.TextMarshaler): its own text and its own error come back unchanged
+	for _, ts := range []*textStub{{text: "self: rendered"}, {text: ""}, {err: errors.New("cannot render")}} {
+		var txt string
+		var terr error
+		p := guard(func() { txt, terr = csproto.MarshalText(ts) })
+		evals++
+		if p != "" || txt != ts.text || !errors.Is(terr, ts.err) || (ts.err == nil) != (terr == nil) {
+			r.Fail("C11/MarshalText/TextMarshaler-stub", fmt.Sprintf("text=%q err=%v", ts.text, ts.err), map[string]any{"got_text": txt, "got_err": fmt.Sprint(terr), "panic": p})
+		}
+	}
 	// unsupported values: documented error / zero result, no panic
 	type onlyReset struct{ X int }
 	unsupported := []struct {
